@@ -4,6 +4,8 @@ implementation's observations with the model's."""
 import re
 from .defs import Item, Variant, Field, render_item, pattern, rust_str, hx
 from . import render as RR
+import os as _os
+_HOSTILE_ENV = [x for x in _os.environ.get("VERIF_DEV_HOSTILE", "").split(",") if x] or None      # development probe only
 
 STRUM_DERIVES = {"EnumString", "Display", "AsRefStr", "IntoStaticStr", "VariantNames", "EnumMessage", "ToString",
                  "AsStaticStr", "EnumProperty", "EnumIter", "EnumCount", "VariantArray", "EnumIs", "EnumTryAs",
@@ -87,6 +89,9 @@ def render_strings(k, it: Item, meta, cfg, extra_derives=(), strum_path="strum")
         # generated code that says `Ok(..)` instead of `::core::result::Result::Ok(..)` stops compiling there
         src = ["pub use self::shadow::%s;\npub mod shadow {\n#![allow(unused_imports, dead_code)]\nuse super::*;\nuse self::%s::*;\n%s\n}" % (
             it.ident, it.ident, render_item(it, dl, bounds=bounds))]
+    elif (getattr(it, "hostile", None) or (_HOSTILE_ENV if not it.tparams else None)):
+        from .defs import hostile_wrap
+        src = [hostile_wrap(render_item(it, dl, bounds=bounds), getattr(it, "hostile", None) or _HOSTILE_ENV)]
     else:
         src = [render_item(it, dl, bounds=bounds)]
     ty = RR.inst(it)
